@@ -134,6 +134,10 @@ fn no_spurious(a: &Analysis, v: &mut Verdict, prop: &str) {
             continue;
         }
         let r = a.rec(d);
+        // the spans the tracing reporter itself records (a fault of the run, not of the program)
+        if a.case.sched.reporter_traces && (r.trace_id >> 12) == (0xDEAD_4000u128 >> 12) && r.name.starts_with("xrep") {
+            continue;
+        }
         let node_known = d.node.map(|n| m.recs.iter().any(|x| x.node == n)).unwrap_or(false);
         let in_trace = d.node.map(|n| m.recs.iter().any(|x| x.node == n && x.trace_id == r.trace_id)).unwrap_or(false);
         let dup = d
@@ -763,12 +767,15 @@ pub fn check_attachments(a: &Analysis, v: &mut Verdict, prop: &str, clause_exact
                     && x.thread == y.thread
                     && (x.route == Route::Handle || (x.submit_op == y.submit_op && x.scope_op == y.scope_op && x.from_set == y.from_set))
             };
+            // program order of one thread: the operations re-entered from inside an operation's
+            // closure complete before that operation's own attachment is made
+            let okey = |o: OpRef| -> (usize, usize) { (outer(o), if o % 16 == 0 { 16 } else { (o % 16) as usize }) };
             for i in 0..positions.len() {
                 for j in 0..positions.len() {
                     let (ai, ji, pi) = positions[i];
                     let (aj, jj, pj) = positions[j];
                     let (x, y) = (&m.atts[ai], &m.atts[aj]);
-                    if ordered(x, y) && (x.made_op, ji) < (y.made_op, jj) && pi > pj {
+                    if ordered(x, y) && (okey(x.made_op), ji) < (okey(y.made_op), jj) && pi > pj {
                         v.add(prop, &format!("{}.order", prop), format!("props:{:?}", x.route), format!("properties attached to n{} by one thread through one route are delivered out of order", er.node));
                     }
                 }
@@ -778,7 +785,7 @@ pub fn check_attachments(a: &Analysis, v: &mut Verdict, prop: &str, clause_exact
                     let (ai, pi) = ev_positions[i];
                     let (aj, pj) = ev_positions[j];
                     let (x, y) = (&m.atts[ai], &m.atts[aj]);
-                    if ordered(x, y) && x.made_op < y.made_op && pi > pj {
+                    if ordered(x, y) && okey(x.made_op) < okey(y.made_op) && pi > pj {
                         v.add(prop, &format!("{}.order", prop), format!("events:{:?}", x.route), format!("events attached to n{} by one thread through one route are delivered out of order", er.node));
                     }
                 }
